@@ -6,6 +6,9 @@ This module provides functions to save MCMC sample data to arrow files. Enable v
 
 use ndarray::{Array3, Axis};
 use std::error::Error;
+#[cfg(mini_mcmc_verif)]
+use mcmc_sim::fs::File;
+#[cfg(not(mini_mcmc_verif))]
 use std::fs::File;
 use std::sync::Arc;
 
